@@ -3,7 +3,12 @@
 spec/wire: Wire (class table of everything a remote peer can put on an inbound stream, the stream
 machine, the three predicates), MCWire (exhaustive over the alphabet; a config that MUST fail),
 GenWire (prints the table + the alphabet, enumerates every sequence of <= 3 named frames),
-WireTrace (P_C12_* per recorded line; reset / recv prediction = drift only).
+WireTrace (P_C12_* per recorded line; reset / recv prediction = drift only), Pipe (the hand-offs event loop ->
+validateQ -> workers -> sendMsg -> event loop: non-blocking variant live, blocking variant MUST fail).
+The table also holds the flood-protection caps the node is configured with (Caps) and "exactly at the cap / one
+more" classes for each of them, publish-count classes measured against the node's own validation pipeline, and
+anchor scenarios that overfill every hand-off from the event loop to another goroutine (validation queue, the
+hostile peer's outbound queue, the PX connect channel, a subscriber that never reads).
 
 Level "exploration": this is model-GENERATED testing. The specification enumerates class combinations
 (all pairs, a larger seeded sample in the thorough tier) and short sequences; it cannot show the absence
@@ -401,7 +406,7 @@ def validate(ctx, scn_lines, name, chunk=2500):
         return got, res.distinct
 
     out, states = {"VIOL": [], "DRIFT": [], "BAD": []}, 0
-    with cf.ThreadPoolExecutor(max_workers=max(1, min(vlib.NCPU // 2, 6, len(chunks) or 1))) as ex:
+    with cf.ThreadPoolExecutor(max_workers=max(1, min(vlib.NCPU // 2, 4, len(chunks) or 1))) as ex:
         for got, st in ex.map(do, range(len(chunks))):
             for k in out:
                 out[k] += got[k]
@@ -440,16 +445,28 @@ def run(ctx):
     states = transitions = 0
     # 1. model level (small on purpose; see MCWire) + the configuration that MUST fail; 2. Gen: table, alphabet,
     #    anchors, every sequence of <= 3 named frames (the three TLC runs are independent: run them side by side)
+    #    plus the pipeline hand-off model (Pipe.tla): the non-blocking hand-off is live, the blocking one MUST fail.
+    #    Never more than 4 TLC workers at a time.
     with cf.ThreadPoolExecutor(max_workers=3) as ex:
-        f_mc = ex.submit(vlib.run_tlc, ctx, FAMILY, "MCWire", "MCWire.cfg", timeout=300, name="mc", workers=2)
-        f_bug = ex.submit(vlib.run_tlc, ctx, FAMILY, "MCWire", "MCWireBug.cfg", timeout=300, name="mc-bug", workers=2)
         f_gen = ex.submit(vlib.run_tlc, ctx, FAMILY, "GenWire",
                           vlib.cfg_text(constants={"Guarded": True, "L": 3}, invariants=["Emit", "P_C12_Alive"]),
-                          timeout=600, name="gen", workers=4, heap="4g")
+                          timeout=1800, name="gen", workers=2, heap="4g")
+        f_mc = ex.submit(vlib.run_tlc, ctx, FAMILY, "MCWire", "MCWire.cfg", timeout=900, name="mc", workers=1)
+        f_bug = ex.submit(vlib.run_tlc, ctx, FAMILY, "MCWire", "MCWireBug.cfg", timeout=900, name="mc-bug", workers=1)
+        f_pipe = [ex.submit(vlib.run_tlc, ctx, FAMILY, "Pipe", c + ".cfg", timeout=900, name=c.lower(), workers=1)
+                  for c in ("MCPipe", "MCPipeBlocking", "MCPipeBlockingFits", "MCPipeBlockingAsync")]
         mc, bug, gen = f_mc.result(), f_bug.result(), f_gen.result()
+        pipe, pipe_bug, pipe_fits, pipe_async = [f.result() for f in f_pipe]
     vlib.require_mc_ok(ctx, mc, "MCWire")
     vlib.require_mc_fails(ctx, bug, "MCWire (Guarded=FALSE: the code as found, D2)", "P_C12_Alive")
     states += mc.distinct; transitions += mc.generated
+    vlib.require_mc_ok(ctx, pipe, "MCPipe (non-blocking hand-off to the validation queue)")
+    vlib.require_mc_ok(ctx, pipe_fits, "MCPipeBlockingFits (blocking hand-off, the RPC fits into the pipeline)")
+    vlib.require_mc_ok(ctx, pipe_async, "MCPipeBlockingAsync (blocking hand-off, asynchronous validators)")
+    if pipe_bug.timed_out or not re.search(r"Error: Temporal properties .*violated", pipe_bug.out):
+        raise vlib.Inconclusive("MCPipeBlocking: the blocking hand-off must violate P_C12_Liveness_Pipe (non-vacuity), see %s/tlc.out" % pipe_bug.dir)
+    for r_ in (pipe, pipe_fits, pipe_async):
+        states += r_.distinct; transitions += r_.generated
     vlib.require_mc_ok(ctx, gen, "GenWire")
     states += gen.distinct; transitions += gen.generated
     tabs, alphs, seqs, anch = gen.printed("TABLE"), gen.printed("ALPHABET"), gen.printed("SCN"), gen.printed("ANCHORS")
@@ -484,6 +501,9 @@ def run(ctx):
     if rp.cut_short:
         ctx.notes.append("replay cut short after %d hangs/stalls of the node (each costs the watchdog's 60 s)" % rp.hangs)
     by = group(lines)
+    bad_pipe = [ln["scn"] for ln in lines if ln.get("e") == "reset" and min(ln.get("pipe", {"q": -1}).values()) < 0]
+    if bad_pipe:
+        raise vlib.Inconclusive("cannot read cap(validateQ) / validateWorkers / cap(sendMsg) off the node (fields renamed?), scenarios %s" % bad_pipe[:3])
     bad_setup = [ln["scn"] for ln in lines if ln.get("e") == "reset" and not ln.get("ok")]
     if bad_setup:
         raise vlib.Inconclusive("setup failed (honest message not delivered before any hostile frame) in scenarios %s" % bad_setup[:5])
@@ -654,7 +674,30 @@ def run(ctx):
              # flood-protection caps: filled exactly and then one more input inside the same heartbeat (the node's own counters
              # are read from the snapshot for this; they are evidence that the input hit the boundary, never a verdict)
              "ihave_budget_exact_then_more_scored": 0, "ihave_budget_exact_then_more_unscored": 0, "ihave_rpcs_over_cap": 0,
-             "idontwant_rpcs_at_cap_then_more": 0, "px_flood_with_hanging_dials": 0, "px_flood_with_hanging_dials_scored": 0}
+             "idontwant_rpcs_at_cap_then_more": 0, "px_flood_with_hanging_dials": 0, "px_flood_with_hanging_dials_scored": 0,
+             # hand-offs from the event loop to other goroutines, overfull by remote input, with the liveness probe after it:
+             # ONE RPC with more new valid messages than validateQ + workers + sendMsg can absorb (validation ending inside the
+             # worker: signature only / inline validator; with an asynchronous validator; with the library's default capacities)
+             "validation_pipeline_overfull_sync_then_probe": 0, "validation_pipeline_overfull_inline_then_probe": 0,
+             "validation_pipeline_overfull_async_then_probe": 0, "validation_pipeline_overfull_default_caps_then_probe": 0,
+             "peer_outbound_queue_overfull_then_probe": 0}
+    for i in order:
+        cfg, pipe_caps = by[i][0]["cfg"], by[i][0].get("pipe", {})
+        for ln in by[i][1:]:
+            info, f, obs = ln.get("info", {}), ln["fr"]["f"], ln["obs"]
+            if not obs["alive"] or not (obs["eval"] and obs["probe"]):
+                continue
+            ev = " ".join(info.get("ev", []))
+            if cfg["hslow"] == "on" and "Drop:h" in ev:
+                reach["peer_outbound_queue_overfull_then_probe"] += 1
+            if (ln["fr"]["kind"] == "Rpc" and info.get("nmsgs", 0) > pipe_caps["q"] + pipe_caps["w"] + pipe_caps["s"]
+                    and f["msgTopic"] == "known" and f["from"] in ("own", "other") and f["sig"] == "signed" and f["key"] in ("absent", "match")
+                    and f["seqno"] in ("8", "9") and cfg["sign"] != "nosign" and not (cfg["score"] == "on" and cfg["hscore"] == "low")
+                    and "validation queue full" in ev and "Deliver:h" in ev):
+                kind = {"none": "sync", "inline": "inline", "seqno": "async"}[cfg["validator"]]
+                reach["validation_pipeline_overfull_%s_then_probe" % kind] += 1
+                if cfg["valq"] == "default":
+                    reach["validation_pipeline_overfull_default_caps_then_probe"] += 1
     caps = tab.caps
     for i in order:
         fl = [ln for ln in by[i][1:] if ln["obs"]["alive"] and "iasked" in ln.get("info", {})]
